@@ -1,48 +1,171 @@
 package main
 
-import "ti/verifapi"
+import (
+	"ti/base"
+	"ti/builtin"
+	me "ti/eval/method_evaluator"
+	"ti/verifapi"
+)
 
+func verifItoa(i int) string { return verifapi.Pick(i, "0", "1", "2", "3", "4", "5", "6", "7", "8", "9") }
+
+// VerifConvertArgs: C25 kernel. An RBS function type of symbolic shape (<=2 required, <=1
+// optional, optional rest, <=1 trailing positionals, <=2 required and <=2 optional keywords)
+// is converted twice with the iteration order of both keyword maps left to the solver
+// (schedule variables):
+//   - the two emitted argument lists are identical (determinism),
+//   - the order is required positionals, optional (is_default), rest (is_asterisk),
+//     trailing, required keywords, optional keywords (is_default),
+//   - loaded by ti's real config loader and called with k positionals and a subset of the
+//     keywords, the call is accepted exactly when the RBS arity allows it.
 func VerifConvertArgs(n int) {
 	t := &RBSType{Class: "class_instance", Name: "Integer"}
 	ft := RBSFuncType{ReturnType: *t}
-	nr := verifapi.Int("nreq", 0, 2)
+	nr := verifapi.Concrete(verifapi.Int("nreq", 0, 2))
+	nopt := verifapi.Concrete(verifapi.Int("nopt", 0, 1))
+	rest := verifapi.Concrete(verifapi.Int("rest", 0, 1))
+	ntr := verifapi.Concrete(verifapi.Int("ntrail", 0, 1))
 	for i := 0; i < nr; i++ {
 		ft.RequiredPositionals = append(ft.RequiredPositionals, RBSParam{Type: t})
 	}
-	rk := []string{"a", "b"}
-	ok := []string{"c", "d"}
+	for i := 0; i < nopt; i++ {
+		ft.OptionalPositionals = append(ft.OptionalPositionals, RBSParam{Type: t})
+	}
+	if rest == 1 {
+		ft.RestPositionals = &RBSParam{Type: t}
+	}
+	for i := 0; i < ntr; i++ {
+		ft.TrailingPositionals = append(ft.TrailingPositionals, RBSParam{Type: t})
+	}
+	rk := []string{"b", "a"}
+	ok := []string{"d", "c"}
 	ft.RequiredKeywords = map[string]RBSParam{}
 	ft.OptionalKeywords = map[string]RBSParam{}
-	nk := verifapi.Int("nkw", 0, 2)
+	nk := verifapi.Concrete(verifapi.Int("nkw", 0, 2))
 	for i := 0; i < nk; i++ {
 		ft.RequiredKeywords[rk[i]] = RBSParam{Type: t}
 	}
-	no := verifapi.Int("nopt", 0, 2)
+	no := verifapi.Concrete(verifapi.Int("nokw", 0, 2))
 	for i := 0; i < no; i++ {
 		ft.OptionalKeywords[ok[i]] = RBSParam{Type: t}
 	}
 	verifapi.AnyOrder(ft.RequiredKeywords)
 	verifapi.AnyOrder(ft.OptionalKeywords)
+	shape := "req" + verifItoa(nr) + "-opt" + verifItoa(nopt) + "-rest" + verifItoa(rest) + "-trail" + verifItoa(ntr) + "-rkw" + verifItoa(nk) + "-okw" + verifItoa(no)
+	verifapi.Witness("shape", shape)
 
 	a1 := convertArguments(ft, typeAliasMap{}, "C")
 	a2 := convertArguments(ft, typeAliasMap{}, "C")
 	verifapi.Reach("converted")
+	verifapi.Classify("C25/argument-count-differs-between-runs")
 	verifapi.Assert(len(a1) == len(a2), "C25-len")
 	for i := range a1 {
-		verifapi.Assert(a1[i].Key == a2[i].Key, "C25-keyword-order-depends-on-map-iteration")
-	}
-	// documented shape: positionals first, then keywords, required keywords before optional ones
-	seenKw, seenOpt := false, false
-	for _, a := range a1 {
-		if a.Key == "" {
-			verifapi.Assert(!seenKw, "C25-positional-after-keyword")
-		} else {
-			seenKw = true
-			if a.IsDefault {
-				seenOpt = true
-			} else {
-				verifapi.Assert(!seenOpt, "C25-required-keyword-after-optional")
-			}
+		if i < len(a2) {
+			verifapi.Classify("C25/keyword-order-depends-on-map-iteration")
+			verifapi.Assert(a1[i].Key == a2[i].Key, "C25-deterministic")
 		}
 	}
+	// documented order
+	verifapi.Classify("C25/argument-count-wrong/" + shape)
+	verifapi.Assert(len(a1) == nr+nopt+rest+ntr+nk+no, "C25-count")
+	if len(a1) != nr+nopt+rest+ntr+nk+no {
+		return
+	}
+	idx := 0
+	bad := ""
+	for i := 0; i < nr; i++ {
+		if a1[idx].Key != "" || a1[idx].IsDefault || a1[idx].IsAsterisk {
+			bad = "required-positional"
+		}
+		idx++
+	}
+	for i := 0; i < nopt; i++ {
+		if a1[idx].Key != "" || !a1[idx].IsDefault || a1[idx].IsAsterisk {
+			bad = "optional-positional"
+		}
+		idx++
+	}
+	if rest == 1 {
+		if a1[idx].Key != "" || a1[idx].IsDefault || !a1[idx].IsAsterisk {
+			bad = "rest"
+		}
+		idx++
+	}
+	for i := 0; i < ntr; i++ {
+		if a1[idx].Key != "" || a1[idx].IsDefault || a1[idx].IsAsterisk {
+			bad = "trailing-positional"
+		}
+		idx++
+	}
+	for i := 0; i < nk; i++ {
+		if a1[idx].Key == "" || a1[idx].IsDefault || a1[idx].IsAsterisk {
+			bad = "required-keyword"
+		}
+		idx++
+	}
+	for i := 0; i < no; i++ {
+		if a1[idx].Key == "" || !a1[idx].IsDefault || a1[idx].IsAsterisk {
+			bad = "optional-keyword"
+		}
+		idx++
+	}
+	verifapi.Classify("C25/documented-order-violated/" + bad + "/" + shape)
+	verifapi.Assert(bad == "", "C25-order")
+	for _, a := range a1 {
+		verifapi.Classify("C25/type-mapping/Integer-not-mapped-to-Int")
+		verifapi.Assert(len(a.Type) == 1 && a.Type[0] == "Int", "C25-type")
+	}
+
+	// ---- arity through ti's loader and argument checker ----
+	if n < 1 {
+		return
+	}
+	var types [][]string
+	var keys []string
+	var defs, asts []bool
+	for _, a := range a1 {
+		types = append(types, a.Type)
+		keys = append(keys, a.Key)
+		defs = append(defs, a.IsDefault)
+		asts = append(asts, a.IsAsterisk)
+	}
+	decl := builtin.VerifParseArgs(types, keys, defs, asts)
+	np := verifapi.Concrete(verifapi.Int("npos", 0, n))
+	var given []string
+	missingReq := false
+	for i := 0; i < nk; i++ {
+		if verifapi.Bool("give") {
+			given = append(given, rk[i]+":")
+		} else {
+			missingReq = true
+		}
+	}
+	for i := 0; i < no; i++ {
+		if verifapi.Bool("giveopt") {
+			given = append(given, ok[i]+":")
+		}
+	}
+	accepted := me.VerifArityAccepted(decl, np, given)
+	allowed := np >= nr+ntr && (rest == 1 || np <= nr+nopt+ntr) && !missingReq
+	verifapi.Reach("called")
+	// class by root cause: the required positionals are always bound first, so only the
+	// number of positionals left after them matters
+	pshape := "opt" + verifItoa(nopt) + "-rest" + verifItoa(rest) + "-trail" + verifItoa(ntr)
+	free := "free-positionals=none-or-negative"
+	if np > nr {
+		free = "free-positionals=" + verifItoa(np-nr)
+	}
+	switch {
+	case allowed:
+		verifapi.Classify("C25/arity/allowed-call-rejected/" + pshape + "/" + free)
+	case np < nr+ntr:
+		verifapi.Classify("C25/arity/too-few-positionals-accepted/" + pshape + "/" + free)
+	case rest == 0 && np > nr+nopt+ntr:
+		verifapi.Classify("C25/arity/too-many-positionals-accepted/" + pshape + "/" + free)
+	default:
+		verifapi.Classify("C25/arity/missing-required-keyword-accepted/" + pshape + "/" + free)
+	}
+	verifapi.Assert(accepted == allowed, "C25-arity")
 }
+
+var _ = base.NIL
